@@ -9,7 +9,8 @@ zero-length and beyond-EOF chunks; request size knob 32768 / 4096 / 1000.
 Faults: the served handle returns arbitrary short reads; link latency; the
 interleaving of prefetch thread, reader and server is drawn from the seed.
 Oracle: every returned block equals file[offset : offset+length] truncated at
-end of file; every call ends within the liveness bound."""
+end of file; no call stays pending for 15 virtual seconds without any packet
+moving in either direction (slow is not stuck)."""
 import os
 import random
 
@@ -30,7 +31,7 @@ COMPONENTS = {"real": ["SFTPFile.prefetch/readv/_read_prefetch/_prefetch_thread/
 ASSUMPTIONS = ["the file is not modified while it is read"]
 MINIMIZE_CASES = True
 SIZES = (0, 1, 1000, 32767, 32768, 32769, 65536, 100000, 200000, 300000)
-T_STEP = 30.0
+T_STEP = 15.0      # virtual seconds without any packet in either direction while a call is pending
 
 
 def sim_kw(seed):
@@ -162,13 +163,16 @@ def run_case(sim, s, case):
             box["exc"] = e
 
     task = sim.spawn(program, "reader")
+    last_events, last_change = sim.nevents, sim.now
     while task.state != core.DONE:
         sim.join_task(task, 1.0)
-        if task.state != core.DONE and cur["i"] is not None and sim.now - cur["t0"] > T_STEP:
+        if sim.nevents != last_events:
+            last_events, last_change = sim.nevents, sim.now      # packets still flow: slow is not stuck
+        if task.state != core.DONE and cur["i"] is not None and sim.now - max(cur["t0"], last_change) > T_STEP:
             i = cur["i"]
             fail(("C28", "call-never-returns", case["steps"][i][0], core.where_parked(task)),
-                 "step %d %s has been blocked for %.0f virtual seconds; parked in %s; program: %s"
-                 % (i, case["steps"][i][:3], sim.now - cur["t0"], core.where_parked(task), describe(case, i)), i)
+                 "step %d %s has been blocked for %.0f virtual seconds, the last %.0f without any packet; parked in %s; program: %s"
+                 % (i, case["steps"][i][:3], sim.now - cur["t0"], sim.now - last_change, core.where_parked(task), describe(case, i)), i)
     if "bad" in box:
         i, what, got, want = box["bad"]
         j = 0
